@@ -117,7 +117,7 @@ def suppressed_while_signing(ctx):
     evn = norm(ev[0]) if len(ev) == 1 else None
     for meth, fn in (('register_first', 'signal_not_transferring'), ('register_last', 'signal_transferring')):
         cs = [c for c in own_calls(f.node) if isinstance(c.func, ast.Attribute) and c.func.attr == meth]
-        ok = len(cs) == 1 and len(cs[0].args) >= 2 and norm(cs[0].args[1]) == fn and (norm(cs[0].args[0]) == "'request-created.s3'" or (norm(cs[0].args[0]) == 'event_name' and evn == "'request-created.s3'"))
+        ok = len(cs) == 1 and len(cs[0].args) >= 2 and norm(cs[0].args[1]) == fn and q.ntext(f, cs[0].args[0]) == "'request-created.s3'"
         ctx.ob(f, f"events.{meth}('request-created.s3', {fn})", ok, 'reads made while the request is built/signed must not be reported; reporting must be on when it is sent')
     mi = ctx.func('manager.TransferManager.__init__')
     ctx.ob(mi, 'self._register_handlers() in __init__', any((dotted(c.func) or '') == 'self._register_handlers' and not q.guards(c) for c in own_calls(mi.node)), 'handlers are never registered')
@@ -168,8 +168,7 @@ def copies_report_after_the_request(ctx):
                 sz = d.get('size')
                 ok = isinstance(sz, ast.Name) and any(isinstance(v, ast.Call) and (dotted(v.func) or '').endswith('_get_transfer_size') for _, v in q.local_defs(f, sz.id))
                 ctx.ob(f, "CopyPartTask 'size' = _get_transfer_size(...)", ok, f'part progress amount is {norm(sz)}')
-                ctx.ob(f, "CopyPartTask 'callbacks' = progress callbacks", norm(d.get('callbacks')) == 'progress_callbacks'
-                       and any(norm(v) == "get_callbacks(transfer_future, 'progress')" for _, v in q.local_defs(f, 'progress_callbacks') if isinstance(v, ast.AST)), 'wrong callbacks')
+                ctx.ob(f, "CopyPartTask 'callbacks' = progress callbacks", q.ntext(f, d.get('callbacks')) == "get_callbacks(transfer_future, 'progress')", 'wrong callbacks')
     f = ctx.func('copies.CopySubmissionTask._submit_copy_request')
     for s in q.submits(ctx):
         if s.func is not f:
@@ -177,8 +176,8 @@ def copies_report_after_the_request(ctx):
         for cl, ctor, _ in s.task_ctors:
             if cl is not None and ctor is not None:
                 mk = kwarg(ctor, 'main_kwargs')
-                d = {k.value: norm(v) for k, v in zip(mk.keys, mk.values) if isinstance(k, ast.Constant)} if isinstance(mk, ast.Dict) else {}
-                ctx.ob(f, "CopyObjectTask 'size' = transfer_future.meta.size", d.get('size') == 'transfer_future.meta.size' and d.get('callbacks') == 'progress_callbacks', f'{d.get("size")}')
+                d = {k.value: q.ntext(f, v) for k, v in zip(mk.keys, mk.values) if isinstance(k, ast.Constant)} if isinstance(mk, ast.Dict) else {}
+                ctx.ob(f, "CopyObjectTask 'size' = transfer_future.meta.size", d.get('size') == 'transfer_future.meta.size' and d.get('callbacks') == "get_callbacks(transfer_future, 'progress')", f'{d.get("size")}')
 
 
 @rule('C09.e', ['C09'], floor=6)
@@ -205,12 +204,14 @@ def aggregation_is_flushed(ctx):
                     ctx.ob(m, f'{var} and {ccv} (its flushes) go to the same body', ok and same_scope, 'aggregated progress below the threshold would never be delivered')
     ctx.need(n >= 3, f'only {n} _get_progress_callbacks uses')
     f = ctx.func('upload.UploadInputManager._get_close_callbacks')
-    rets = [norm(x.value) for x in own_nodes(f.node) if isinstance(x, ast.Return)]
-    ctx.ob(f, 'close callbacks = [callback.flush for callback in aggregated_progress_callbacks]', rets == [f'[callback.flush for callback in {f.params[1]}]'], f'{rets}')
+    rets = [x.value for x in own_nodes(f.node) if isinstance(x, ast.Return)]
+    ok = len(rets) == 1 and isinstance(rets[0], ast.ListComp) and len(rets[0].generators) == 1 and norm(rets[0].generators[0].iter) == f.params[1] \
+        and not rets[0].generators[0].ifs and isinstance(rets[0].elt, ast.Attribute) and rets[0].elt.attr == 'flush' and norm(rets[0].elt.value) == norm(rets[0].generators[0].target)
+    ctx.ob(f, 'close callbacks = [callback.flush for callback in aggregated_progress_callbacks]', ok, f'{[norm(r) for r in rets]}')
     f = ctx.func('upload.UploadInputManager._get_progress_callbacks')
     rets = [x for x in own_nodes(f.node) if isinstance(x, ast.Return)]
-    ok = any(norm(x.value) == '[AggregatedProgressCallback(callbacks)]' and q.guards_imply(q.guards(x), 'callbacks') for x in rets) and \
-        any(norm(v) == "get_callbacks(transfer_future, 'progress')" for _, v in q.local_defs(f, 'callbacks') if isinstance(v, ast.AST))
+    cbn = q.names_defined_by(f, lambda v: norm(v) == "get_callbacks(transfer_future, 'progress')")
+    ok = len(cbn) == 1 and any(norm(x.value) == f'[AggregatedProgressCallback({cbn[0]})]' and q.guards_imply(q.guards(x), cbn[0]) for x in rets)
     ctx.ob(f, "AggregatedProgressCallback(get_callbacks(transfer_future, 'progress'))", ok, 'upload progress must go to the on_progress subscribers')
     a = ctx.cls('upload.AggregatedProgressCallback')
     call = a.methods['__call__']
